@@ -10,6 +10,13 @@ Driver family `gossip` (C03).  One session (= one case id) is a `reset` line fol
 * `req     <cid> gs= body= sig= addr= rhb= rreq= rraw= dec=<chain:tx|err> res= ret=<chain:tx|-> tbl=`
 * `sethb   <cid> addr= from= hb=<canon@ts> res=<ok|e:toomany|panic> upd= tbl=`
 * `cleanup <cid> now=<ns> tbl=`          `end <cid>`
+* optional fields: `named=<hex of the body's guardian_addr string|->` on `hb` lines (verdict text only) and `rep=<n>` on `hb` / `req`
+  lines: the harness made the SAME call n times in a row, every one was rejected with the same error and left table, update
+  channel and metrics alone, so one line stands for n (a lossless abbreviation: model and Spec are functions of the line).
+
+Ghost state per session (built from the lines alone): `recv` — for every heartbeat received, the address its signature
+recovers to under the heartbeat domain, the sending peer and the decoded body (plus the node's own `sethb` entries); `memo` —
+calls that were accepted since the last state change, with the number of dropped messages received since.
 
 Oracles: the model's digest function is instantiated with the identity (the model only ever passes it the pre-image it
 built) and `recover pre sig` answers from the three recoveries the harness computed for the protocol's pre-images
@@ -92,6 +99,13 @@ structure Sess where
   spec : Option String := none
   diff : Option String := none
   ended : Bool := false
+  /-- (recovered signer, peer, decoded heartbeat) of every heartbeat received so far, and the node's own entries -/
+  recv : List (Addr × Peer × Hb) := []
+  /-- per message type, the last accepted call since the last own heartbeat / Cleanup: (hash, key, result, an immediate repeat gave the
+  same result, value of `drops` when last seen) -/
+  memo : List (UInt64 × String × String × Bool × Nat) := []
+  /-- dropped (rejected) gossip messages received so far in this session -/
+  drops : Nat := 0
 
 structure St where
   s : Sess := {}
@@ -106,6 +120,7 @@ structure St where
   cleaned : Nat := 0
   sethbs : Nat := 0
   maxPerGuardian : Nat := 0
+  maxDrops : Nat := 0
 
 def Sess.addSpec (s : Sess) (clause text : String) : Sess :=
   if s.spec.isSome then s else { s with spec := some s!"{clause} {text}" }
@@ -134,6 +149,42 @@ def capSpec (s : Sess) (t : Table) : Sess :=
   match t.find? (fun e => e.2.length > cfg.cap) with
   | some (a, v) => s.addSpec "cap-exceeded" s!"guardian {toHex a} holds {v.length} node entries (cap {cfg.cap})"
   | none => s
+
+/-- Spec clause, judged per address after every line: a table entry under address `a` (peer `p`, content `h`) exists only if a
+heartbeat with that content whose signature recovers to `a` was received from `p` (or the node filed it itself).  Only
+entries that are new or changed with respect to the previous line are looked up. -/
+def entrySpec (s : Sess) (t : Table) (ctx : String) : Sess :=
+  let fresh := t.flatMap fun (a, v) => (v.filter fun (p, h) => ((s.impl.lookup a).bind (·.lookup p)) != some h).map fun (p, h) => (a, p, h)
+  match fresh.find? (fun e => !(s.recv.contains e)) with
+  | some (a, p, _) =>
+    let signers := (s.recv.map (·.1)).eraseDups
+    let hasAddr := signers.contains a
+    s.addSpec "entry-under-address-that-did-not-sign" (s!"the table holds an entry under {toHex a} (peer {hexOrDash p}) " ++
+      (if hasAddr then "with a content no heartbeat signed by that address and received from that peer had"
+       else s!"although nothing whose signature recovers to that address was received (signatures received so far recover to: {signers.map toHex})") ++ s!"; {ctx}")
+  | none => s
+
+/-- Spec clause "dropped without side effects", on repeated calls: a call that was accepted, and accepted again when repeated
+at once, must give the same result when it is repeated after nothing but DROPPED messages (and accepted messages of the
+other type) were received.  `key` = every
+input of the call (for heartbeats including the table before it), `result` = everything it returned / left behind. -/
+def memoSpec (s : Sess) (what key result : String) (accepted : Bool) (rep : Nat) : Sess :=
+  let hk := hash key
+  let found := s.memo.find? (fun e => e.1 == hk && e.2.1 == key)
+  let s :=
+    match found with
+    | some (_, _, r0, repeatable, at_) =>
+      if s.drops > at_ ∧ repeatable ∧ r0 ≠ result then
+        s.addSpec "dropped-gossip-changed-later-result" s!"{what}: this call was accepted ({r0.take 60}…), accepted again when repeated at once, and since then the node has received {s.drops - at_} message(s) it dropped and accepted no other message of this type; the identical call now gives {result.take 80}"
+      else s
+    | none => s
+  if accepted then
+    let repeatable := match found with
+      | some (_, _, r0, rp, at_) => (rp || s.drops == at_) && r0 == result
+      | none => false
+    -- an accepted message replaces what is remembered about messages of ITS type (keys start with "hb|" / "req|")
+    { s with memo := (hk, key, result, repeatable, s.drops) :: s.memo.filter (fun e => e.2.1.take 3 != key.take 3) }
+  else { s with drops := s.drops + rep }
 
 /-- The oracle the model is run with (see the file comment). -/
 def mkOracles (body sig : Bytes) (rhb rreq rraw : Option Addr) (decHb : Option Hb) (decReq : Option ObsReq) : Oracles :=
@@ -173,7 +224,17 @@ def stepSess (st : St) (op : String) (rest : List String) : St :=
         let tbl := normTable tblRaw
         let disable := dv = 1
         let a := bytesToAddress addr
+        let rep := (kvNat rest "rep").getD 1
+        let named := (kv rest "named").getD "?"
         -- ---------- Spec on the implementation's own result
+        let s := match rhb, dec with
+          | some r, some h => if s.recv.contains (r, src, h) then s else { s with recv := (r, src, h) :: s.recv }
+          | _, _ => s
+        let s := entrySpec s tbl s!"this line: heartbeat from peer {hexOrDash src}, envelope address {toHex a}, signature recovers to {rhb.map toHex}, guardian_addr string inside the body (hex) {named}, result {res}"
+        let s := if rep > 1 ∧ (res = "ok" ∨ tbl ≠ s.impl ∨ !upd.isEmpty ∨ met = 1) then s.addDiff s!"rep={rep} on a heartbeat line that is not a plain rejection" else s
+        let s := memoSpec s s!"heartbeat of {toHex a} from peer {hexOrDash src}"
+          s!"hb|{dv}|{(kv rest "gs").getD ""}|{(kv rest "from").getD ""}|{(kv rest "body").getD ""}|{(kv rest "sig").getD ""}|{(kv rest "addr").getD ""}|{showTable s.impl}"
+          s!"{res} {retS} {showTable tbl}" (res = "ok") rep
         let s :=
           if res = "panic" then s.addSpec "verifier-panic" s!"processSignedHeartbeat panicked (body {body.length} bytes, sig {sig.length} bytes, addr {addr.length} bytes)"
           else if disable then s
@@ -206,7 +267,7 @@ def stepSess (st : St) (op : String) (rest : List String) : St :=
           else s
         let s := { s with model := mt, impl := tbl }
         let st := if disable then { st with dvLines := st.dvLines + 1 }
-                  else if res = "ok" then { st with hbAccept := st.hbAccept + 1 } else { st with hbReject := st.hbReject + 1 }
+                  else if res = "ok" then { st with hbAccept := st.hbAccept + 1 } else { st with hbReject := st.hbReject + rep }
         { st with s := s, kinds := bump st.kinds s!"hb_{res}", maxPerGuardian := max st.maxPerGuardian (maxInner tbl) }
       | _, _, _, _, _, _, _, _, _ => { st with s := s.addDiff "unparsable hb line (results)" }
     | _, _, _, _, _, _ => { st with s := s.addDiff "unparsable hb line" }
@@ -219,6 +280,12 @@ def stepSess (st : St) (op : String) (rest : List String) : St :=
         let dec := if decS = "err" then none else parseReq decS
         let ret := if retS = "-" then none else parseReq retS
         let tbl := normTable tblRaw
+        let rep := (kvNat rest "rep").getD 1
+        let s := entrySpec s tbl s!"this line: an observation request ({res})"
+        let s := if rep > 1 ∧ (res = "ok" ∨ tbl ≠ s.impl) then s.addDiff s!"rep={rep} on a request line that is not a plain rejection" else s
+        let s := memoSpec s s!"observation request of {toHex (bytesToAddress addr)}"
+          s!"req|{(kv rest "gs").getD ""}|{(kv rest "body").getD ""}|{(kv rest "sig").getD ""}|{(kv rest "addr").getD ""}|{showTable s.impl}"
+          s!"{res} {retS} {showTable tbl}" (res = "ok") rep
         let s :=
           if res = "panic" then s.addSpec "verifier-panic" s!"processSignedObservationRequest panicked (body {body.length} bytes, sig {sig.length} bytes, addr {addr.length} bytes)"
           else if res = "ok" then
@@ -235,7 +302,7 @@ def stepSess (st : St) (op : String) (rest : List String) : St :=
           else if (match mr with | .ok r => some r | .error _ => none) ≠ ret then s.addDiff s!"observation request return value differs: impl {retS}"
           else s
         let s := { s with impl := tbl }
-        let st := if res = "ok" then { st with reqAccept := st.reqAccept + 1 } else { st with reqReject := st.reqReject + 1 }
+        let st := if res = "ok" then { st with reqAccept := st.reqAccept + 1 } else { st with reqReject := st.reqReject + rep }
         { st with s := s, kinds := bump st.kinds s!"req_{res}" }
       | _, _, _, _ => { st with s := s.addDiff "unparsable req line (results)" }
     | _, _, _, _, _, _, _ => { st with s := s.addDiff "unparsable req line" }
@@ -243,6 +310,8 @@ def stepSess (st : St) (op : String) (rest : List String) : St :=
     match kvHex rest "addr", kvHex rest "from", kv rest "hb" >>= parseHb, kv rest "res", kv rest "upd" >>= parseHbList, kv rest "tbl" >>= parseTable with
     | some a, some src, some h, some res, some upd, some tblRaw =>
       let tbl := normTable tblRaw
+      let s := { s with recv := (a, src, h) :: s.recv, memo := [] }
+      let s := entrySpec s tbl s!"this line: the node's own SetHeartbeat for {toHex a}"
       let s := if res = "panic" then s.addSpec "verifier-panic" "SetHeartbeat panicked" else s
       let s := capSpec s tbl
       let mo := setHeartbeat cfg.cap s.model a src h
@@ -260,6 +329,8 @@ def stepSess (st : St) (op : String) (rest : List String) : St :=
     match (kv rest "now").bind String.toInt?, kv rest "tbl" >>= parseTable with
     | some now, some tblRaw =>
       let tbl := normTable tblRaw
+      let s := { s with memo := [] }
+      let s := entrySpec s tbl "this line: Cleanup"
       let s := capSpec s tbl
       let mt := cleanup cfg.maxAge now s.model
       let s := if normTable mt ≠ tbl then s.addDiff s!"Cleanup(now={now}) table model={showTable (normTable mt)} impl={showTable tbl}" else s
@@ -271,6 +342,8 @@ def stepSess (st : St) (op : String) (rest : List String) : St :=
     match kvHex rest "addr", kvNat rest "before", kvNat rest "writers", kvNat rest "oks", kv rest "tbl" >>= parseTable with
     | some a, some before, some writers, some oks, some tblRaw =>
       let tbl := normTable tblRaw
+      -- the entries of this scenario were written by the harness' own SetHeartbeat calls (no line each)
+      let s := { s with memo := [], recv := (tbl.flatMap fun (a, v) => v.map fun (p, h) => (a, p, h)) ++ s.recv }
       let s := capSpec s tbl
       let have_ := ((tbl.lookup a).getD []).length
       let want := min writers (cfg.cap - before)
@@ -280,7 +353,7 @@ def stepSess (st : St) (op : String) (rest : List String) : St :=
         else s
       { st with s := { s with model := tbl, impl := tbl }, sethbs := st.sethbs + writers, maxPerGuardian := max st.maxPerGuardian (maxInner tbl) }
     | _, _, _, _, _ => { st with s := s.addDiff "unparsable conc line" }
-  | "end" => { st with s := { s with ended := true } }
+  | "end" => { st with s := { s with ended := true }, maxDrops := max st.maxDrops s.drops }
   | _ => { st with s := s.addDiff s!"unknown op {op}" }
 
 def step (st : St) (line : String) : St × List String :=
@@ -298,7 +371,7 @@ def fin (st : St) : List String :=
   [s!"stat sessions {st.sessions}", s!"stat hb_accepted {st.hbAccept}", s!"stat hb_rejected {st.hbReject}",
    s!"stat req_accepted {st.reqAccept}", s!"stat req_rejected {st.reqReject}", s!"stat disable_verify_lines {st.dvLines}",
    s!"stat cleanups {st.cleanups}", s!"stat cleaned_entries {st.cleaned}", s!"stat own_heartbeats {st.sethbs}",
-   s!"stat max_entries_per_guardian {st.maxPerGuardian}"] ++
+   s!"stat max_entries_per_guardian {st.maxPerGuardian}", s!"stat max_dropped_in_a_session {st.maxDrops}"] ++
   (st.kinds.map fun (k, n) => s!"stat {k} {n}")
 
 def run (h : IO.FS.Stream) : IO Unit := loop h ({} : St) step fin
